@@ -54,15 +54,20 @@ def pushdown_predicates(expression: E, dialect: DialectType = None) -> E:
                 # a right join can only push down to itself and not the source FROM table
                 # presto, trino and athena don't support inner joins where the RHS is an UNNEST expression
                 pushdown_allowed = True
+                right_join_source: Sources | None = None
                 for k, (node, source) in selected_sources.items():
                     parent = node.find_ancestor(exp.Join, exp.From)
                     if isinstance(parent, exp.Join):
                         if parent.side == "RIGHT":
-                            selected_sources = {k: (node, source)}
-                            break
+                            # every source before a right join is null-extended by it,
+                            # so only the last right join preserves its own source
+                            right_join_source = {k: (node, source)}
                         if isinstance(node, exp.Unnest) and unnest_requires_cross_join:
                             pushdown_allowed = False
                             break
+
+                if right_join_source is not None:
+                    selected_sources = right_join_source
 
                 # a full join null-extends every source that precedes it (and its own source), so a
                 # WHERE predicate on one of those can't move below the join
